@@ -8,7 +8,7 @@ hooks = subprocess.run(['git','-C','/repo','log','--format=%h %s'],capture_outpu
 hook_commits = [l.split()[0] for l in hooks if l.split(' ',1)[1].startswith('verif:')]
 checks=[]
 try:
-    bounded = {b["prop"] for b in json.load(open('/verif/bounded/index.json'))}
+    bounded = {b["prop"] for b in json.load(open("/verif/bounded/index.json")) if b.get("role") != "cross-check"}
 except Exception:
     bounded = set()
 for pid in sorted(claims):
